@@ -478,6 +478,10 @@ class SymNp:
 
     max = amax
 
+    @property
+    def linalg(self):
+        return _SymLinalg()
+
     def finfo(self, t):
         return _Finfo(t)
 
@@ -500,6 +504,27 @@ class SymNp:
         if isinstance(a, (View, Lazy)) or isinstance(b, (View, Lazy)):
             raise Unsupported("np.allclose between symbolic arrays")
         return _np.allclose(a, b, rtol=rtol, atol=atol, **kw)
+
+
+NORM_LOG: list = []  # (result symbol, view, length of the view's buffer log at the call)
+
+
+class _SymLinalg:
+    """np.linalg by contract: norm(field) is an opaque non-negative real that is a function of the
+    field's content at the call (recorded, so the caller's contract can name the argument)."""
+
+    def __getattr__(self, name):
+        return getattr(_np.linalg, name)
+
+    def norm(self, a, *args, **kw):
+        if not isinstance(a, (Lazy, View)):
+            return _np.linalg.norm(a, *args, **kw)
+        if args or kw:
+            raise Unsupported("np.linalg.norm options")
+        m = Sym.R(f"l2norm{len(NORM_LOG)}")
+        ctx.assume(m >= 0)
+        NORM_LOG.append((m, a, len(a.buf.log) if isinstance(a, View) else None))
+        return m
 
 
 AMAX_LOG: list = []  # (m, lazy array): the universally quantified half  m >= a[c]  is instantiated on demand
